@@ -24,8 +24,8 @@ pub fn err_kind(e: &deser::Error) -> String {
         UsizeSizeMismatch(v) => format!("UsizeSizeMismatch({})", v),
         MagicCookieError(v) => format!("MagicCookieError({:#x})", v),
         InvalidTag(v) => format!("InvalidTag({})", v),
-        WrongTypeHash { ser_type_hash, self_type_hash, .. } => format!("WrongTypeHash(ser={:#x},self={:#x})", ser_type_hash, self_type_hash),
-        WrongAlignHash { ser_align_hash, self_align_hash, .. } => format!("WrongAlignHash(ser={:#x},self={:#x})", ser_align_hash, self_align_hash),
+        WrongTypeHash { ser_type_hash, self_type_hash, ser_type_name, self_type_name } => format!("WrongTypeHash(ser={:#x},self={:#x},ser_name={},self_name={})", ser_type_hash, self_type_hash, ser_type_name, self_type_name),
+        WrongAlignHash { ser_align_hash, self_align_hash, ser_type_name, self_type_name } => format!("WrongAlignHash(ser={:#x},self={:#x},ser_name={},self_name={})", ser_align_hash, self_align_hash, ser_type_name, self_type_name),
     }
 }
 
